@@ -388,7 +388,7 @@ var streamRules = map[string]string{}
 var propStreams = map[string][]string{
 	"C01": {"BUILDER"},
 	"C02": {"BUILDER"},
-	"C03": {"BUILDER"},
+	"C03": {"BUILDER", "BHIST"},
 	"C04": {"BUILDER", "BHIST"},
 	"C05": {"COMMIT"},
 	"C06": {"BUILDER", "BHIST"},
@@ -413,7 +413,7 @@ var propStreams = map[string][]string{
 var propOps = map[string][]string{
 	"C01": {"sq build", "sq construct"},
 	"C02": {"sq construct", "sh deconstruct"},
-	"C03": {"sq build", "sq construct"},
+	"C03": {"sq build", "sq construct", "b export"},
 	"C04": {"sq build", "sq construct", "sq blobrange", "sh wpfbs", "b blobidx", "b wpfb", "b bloblen"},
 	"C05": {"commit roots", "sh rowroot"},
 	"C06": {"sq build", "b "},
